@@ -10,3 +10,6 @@ package agent
 // simHook is a schedule/crash point of the deterministic-simulation harness. Without the
 // "verif" build tag it is an empty function and is inlined away.
 func simHook(point, key string) {}
+
+// simOrderClients lets the harness own the sync.Map iteration order of the REST clients.
+func simOrderClients(uuids []string) []string { return uuids }
